@@ -9,7 +9,7 @@ TRUSTED_BASE = list(_TB)
 ASSUMPTIONS = TRUSTED_BASE + [
     "inductive step for N <= 3 plus-ensembles (as C03); the probabilities are SYMBOLIC (only the contract of prob is used), so the per-step conservation holds for all weight values of those shapes",
     "restart round trip of the frac entries (write_toml / load_paths: str(longdouble) text) is not decided here",
-    "the global sum 'rows in the data file + live weights == idle step count' follows from the per-step obligations by induction over steps (argued, not mechanised)",
+    "the global sum 'rows in the data file + live weights == idle step count' follows from the per-step obligations by induction over steps (lemma total_after_steps, mechanised in lean/Lemmas.lean and re-checked by the thorough tier)",
 ]
 EXPLANATION = (
     "For every abstract state satisfying the invariant and every finished job / outcome, the REAL treat_output is executed with symbolic probabilities constrained only by the contract of prob: z3 proves that each idle "
@@ -19,7 +19,11 @@ EXPLANATION = (
 
 
 def jobs(tier):
-    return _repex.make_jobs(tier)
+    js = _repex.make_jobs(tier)
+    if tier != "quick":
+        # L6: per-step conservation => global sum, by induction over steps (Lean 4 + Mathlib, lean/Lemmas.lean)
+        js.append(("py", {"name": "lean_lemmas", "module": "vf.lemmas", "fn": "run_lean", "theorems": ["total_after_steps"]}))
+    return js
 
 
 replay = _repex.replay
